@@ -832,6 +832,8 @@ def _int_division(e, scope):
                 return 'float' if e[1] == 'div' else 'int'
             if e[1] in X.CMPS + ['and', 'or', 'floordiv']:
                 return 'int'
+            if e[1] in ('min', 'max') and 'int' in (a, b):
+                return 'int'        # the selected operand may be the int one
             return 'float' if 'float' in (a, b) else 'time' if 'time' in (a, b) else 'int'
         if k == 'ite':
             ty(e[1], sc)
@@ -894,7 +896,7 @@ def _classify_call(e, kinds, scope, path, route, o, exact_required, extra_types=
         return 'piecewise-eager'
     if a['reversed_sum'] and o.get('err') == 'other:ValueError' and (path == 'symfull' or symbolic):
         return 'sum-reversed-limits'
-    if a['reversed_sum'] and ('val' in o or 'nan' in o):
+    if a['reversed_sum'] and ('val' in o or 'nan' in o) and (path == 'symfull' or symbolic):
         return 'sum-reversed-limits'
     return None
 
